@@ -113,6 +113,8 @@ type VC struct {
 	nonnil   map[ssa.Value]bool
 	quantCtx bool
 	usedCallees map[*FuncInfo]bool
+	noDefine    bool
+	pendingWF   map[string]Term
 	lastEv      *Event
 	havocked    map[string][]string // heap name -> havoc versions in creation order
 }
@@ -167,8 +169,8 @@ func (vc *VC) freshConst(base, sort string) Term {
 
 // define introduces a named constant equal to term (definitional, total).
 func (vc *VC) define(base, sort string, t Term) Term {
-	if isAtom(t) {
-		return t
+	if isAtom(t) || vc.noDefine {
+		return t // under a binder a named constant would capture the bound variable
 	}
 	n := vc.freshConst(base, sort)
 	vc.addAssume("true", eq(n, t))
@@ -220,7 +222,17 @@ func (vc *VC) heapGet(s *State, name, sort string) Term {
 	}
 	vc.heapSort[name] = sort
 	init := sym(name + "@0")
-	vc.declare(init, sort)
+	if !vc.declSet[init] {
+		vc.declare(init, sort)
+		if name != "alloc" {
+			if f := vc.heapWF(name, init, sym("alloc@0")); f != "" {
+				vc.declare(sym("alloc@0"), "Int")
+				vc.heapSort["alloc"] = "Int"
+				vc.quantCtx = true
+				vc.addAssume("true", f)
+			}
+		}
+	}
 	return init
 }
 
@@ -231,7 +243,8 @@ func (vc *VC) heapSet(s *State, name, sort string, t Term) {
 
 func (vc *VC) memName(elem types.Type) (string, string) {
 	es := vc.S.sortOf(elem)
-	return "Mem_" + vc.S.typeKey(elem.Underlying()), "(Array Int (Array Int " + es + "))"
+	memElemTypes["Mem_"+vc.S.typeKey(elem.Underlying())] = elem
+	return "Mem_" + vc.S.typeKey(elem.Underlying()),"(Array Int (Array Int " + es + "))"
 }
 func (vc *VC) heapName(t types.Type) (string, string) {
 	heapElemTypes["Heap_"+vc.S.typeKey(t)] = t
@@ -265,6 +278,10 @@ func (vc *VC) havocHeap(s *State, name string) {
 		return
 	}
 	s.heaps[name] = vc.freshConst(name, sort)
+	if vc.pendingWF == nil {
+		vc.pendingWF = map[string]Term{}
+	}
+	vc.pendingWF[name] = s.heaps[name]
 	if vc.havocked == nil {
 		vc.havocked = map[string][]string{}
 	}
